@@ -378,6 +378,9 @@ def program_cases(cases):
             if k != "inf" and (n + len(body)) % 3 == 0:
                 kind = "spine"
             seq.append("(%s %s %s)" % (kind, k, body))
+        if any(x.startswith("(spine") for x in seq):
+            # a stale lock is only visible to a later eval_record_spine
+            seq.append("(spine inf %s)" % body)
         out.append(" ".join(defs + seq))
     return out
 
